@@ -209,20 +209,55 @@ def regenerate():
     return rc, out, failures
 
 
-class _Lock:
-    def __enter__(self):
-        self.f = open(os.path.join(COQ, ".lock"), "w", encoding="utf-8")
-        fcntl.flock(self.f, fcntl.LOCK_EX)
-        return self
+class _BuildLock:
+    """One lock file for the Coq build directory, held by a check for as long as it uses the compiled files:
+    SHARED while it only reads them (evaluates cases, runs coqchk), EXCLUSIVE while it regenerates Generated.v or runs
+    make.  Checks for the same tree find everything up to date and stay shared (they run in parallel); a check for a
+    DIFFERENT tree (seeded changes, mutants) needs a rebuild and waits until the readers are gone -- nobody's compiled
+    model is swapped underneath it."""
+    f = None
 
-    def __exit__(self, *a):
-        fcntl.flock(self.f, fcntl.LOCK_UN)
-        self.f.close()
+    @classmethod
+    def _file(cls):
+        if cls.f is None:
+            cls.f = open(os.path.join(COQ, ".lock"), "w", encoding="utf-8")
+        return cls.f
+
+    @classmethod
+    def shared(cls):
+        fcntl.flock(cls._file(), fcntl.LOCK_SH)
+
+    @classmethod
+    def exclusive(cls):
+        fcntl.flock(cls._file(), fcntl.LOCK_EX)
+
+
+def _up_to_date(targets):
+    env = dict(os.environ, PYTHONPATH=SRC, PYTHONHASHSEED="0", VERIF_REPO=REPO)
+    rc, out = _run([PY, os.path.join(VERIF, "harness", "gen_generated.py"), "--check"], env=env, timeout=120)
+    try:
+        st = json.loads(out.strip().splitlines()[-1])
+    except Exception:  # pylint: disable=broad-except
+        return False, {}
+    if rc != 0 or not st.get("same"):
+        return False, st.get("failures", {})
+    if _run(["make", "-f", "Makefile.wrap", "-q", "Makefile.coq"], cwd=COQ, timeout=120)[0] != 0:
+        return False, st.get("failures", {})
+    if _run(["make", "-f", "Makefile.coq", "-q"] + list(targets), cwd=COQ, timeout=300)[0] != 0:
+        return False, st.get("failures", {})
+    return True, st.get("failures", {})
 
 
 def coq_make(targets, clean=False, timeout=1500):
-    """regenerate Generated.v and build targets (relative .vo paths) under the build lock"""
-    with _Lock():
+    """bring Generated.v and the targets (relative .vo paths) up to date; afterwards this process holds the build
+    lock SHARED until it exits"""
+    _BuildLock.shared()
+    if not clean:
+        ok, failures = _up_to_date(targets)
+        if ok:
+            return True, "up to date", failures
+    _BuildLock.exclusive()
+    try:
         rc_g, out_g, failures = regenerate()
         log = out_g
         if rc_g != 0:
@@ -234,6 +269,8 @@ def coq_make(targets, clean=False, timeout=1500):
         rc, out = _run(["make", "-f", "Makefile.coq", "-j%d" % NCPU, "-k"] + list(targets), cwd=COQ, timeout=timeout)
         log += out
         return rc == 0, log, failures
+    finally:
+        _BuildLock.shared()
 
 
 def coq_props(prop_id, model_targets, clean=False):
@@ -296,10 +333,8 @@ def coqchk(prop_id):
     """independent re-check of the compiled theorem file and everything it depends on; under the build lock and right
     after bringing the .vo files up to date, so that another check building for a different tree cannot swap a
     dependency underneath (coqchk would report inconsistent assumptions)"""
-    with _Lock():
-        regenerate()
-        _run(["make", "-f", "Makefile.coq", "-j%d" % NCPU, "Props/%s.vo" % prop_id], cwd=COQ, timeout=1500)
-        rc, out = _run(["coqchk", "-silent", "-o", "-Q", ".", "Conductor", "Conductor.Props.%s" % prop_id], cwd=COQ, timeout=1800)
+    coq_make(["Props/%s.vo" % prop_id])     # (re)takes the build lock; it stays shared while coqchk reads the files
+    rc, out = _run(["coqchk", "-silent", "-o", "-Q", ".", "Conductor", "Conductor.Props.%s" % prop_id], cwd=COQ, timeout=1800)
     return rc, out
 
 
